@@ -28,12 +28,13 @@ type ExprGen struct {
 }
 
 func stdEnv() *Env {
-	return &Env{NS: []NSBind{{"p", "urn:u1"}, {"q", "urn:u2"}, {"r", "http://example.com/ns"}, {"p2", "urn:u1"}, {"xml", xmlNS}}}
+	return &Env{NS: []NSBind{{"p", "urn:u1"}, {"q", "urn:u2"}, {"r", "http://example.com/ns"}, {"p2", "urn:u1"}, {"xml", xmlNS},
+		{"child", "urn:u1"}, {"text", "urn:u2"}, {"self", "urn:u1"}}}
 }
 
 func NewExprGen(r *Rng, d *Doc, env *Env) *ExprGen {
 	g := &ExprGen{R: r, Doc: d, Env: env,
-		Locals: []string{"a", "b", "c", "d", "item", "x-y", "é", "self", "text", "id", "n", "class", "lang", "nope"}}
+		Locals: []string{"a", "b", "c", "d", "item", "x-y", "é", "self", "text", "id", "n", "class", "lang", "nope", "child", "descendant", "node", "a", "b"}}
 	for _, b := range env.NS {
 		g.Prefixes = append(g.Prefixes, b.Prefix)
 	}
